@@ -30,6 +30,11 @@ def bases():
                 'group_policy': 'none'}),
         ('s3', {'groups': {'1': g(VCPU=1), '2': g(VCPU=1), '3': g(DISK_GB=3)},
                 'group_policy': 'none'}),
+        # two groups whose amounts each respect max_unit but whose sum on one provider does not
+        # (DISK_GB: max_unit 5, capacity 10) -- the limits on *summed* amounts
+        ('s2disk', {'groups': {'1': g(DISK_GB=3), '2': g(DISK_GB=3)}, 'group_policy': 'none'}),
+        ('m1disk', {'groups': {'': g(DISK_GB=3), '1': g(DISK_GB=3)}, 'group_policy': 'isolate'}),
+        ('m1same2', {'groups': {'': g(VCPU=2), '1': g(VCPU=2)}}),
     ]
 
 
@@ -92,13 +97,14 @@ def deviations(q, desc):
                     qq['groups'][s]['resources'][rc] = new
                     return qq
                 out.append(('%s:amount:%s=%d' % (tag, rc, new), fa))
-    if len(granular) >= 2:
+    if len(granular) >= 2 or (granular and '' in suffixes):
         def iso(qq):
             if qq.get('group_policy') == 'isolate':
                 return None
             qq['group_policy'] = 'isolate'
             return qq
         out.append(('group_policy:isolate', iso))
+    if len(granular) >= 2:
         for n in range(2, len(granular) + 1):
             for ss in itertools.combinations(granular, n):
                 def fs(qq, ss=ss):
